@@ -5,7 +5,7 @@ from harness.core import import_param
 
 param = import_param()
 
-VAL = {"t2": (0, 0), "t3": (1, 2, 3), "None": None, "0": 0, "0.0": 0.0, "1": 1, "5": 5, "1.5": 1.5, "s": "s", "": "", "T": True, "F": False,
+VAL = {"lempty": [], "l1": [1], "ls": ["s"], "t2": (0, 0), "t3": (1, 2, 3), "None": None, "0": 0, "0.0": 0.0, "1": 1, "5": 5, "1.5": 1.5, "s": "s", "": "", "T": True, "F": False,
        "b02": (0, 2), "b46": (4, 6), "d1": "d1", "d2": "d2"}
 BASES = {"chain": {"A": [], "B": ["A"], "C": ["B"]}, "skip": {"A": [], "B": ["A"], "C": ["B"]},
          "diamondBC": {"A": [], "B": ["A"], "C": ["A"], "D": ["B", "C"]},
@@ -34,6 +34,8 @@ def make_param(d):
         kw["allow_None"] = True
     if d["inst"] != "U":
         kw["instantiate"] = True
+    if d.get("it", "U") != "U" and d["ty"] == "List":
+        kw["item_type"] = {"int": int, "str": str, "None": None}[d["it"]]
     if d.get("meta", "U") != "U":
         kw.update(META[d["meta"]])
     if d.get("nmeta", "U") != "U" and d["ty"] in ("Number", "Integer"):
@@ -114,10 +116,12 @@ def replay(beh, opts):
             made[c] = cls
             p = cls.param["x"]
             got = {"ty": type(p).__name__, "default": tok(p.default),
-                   "bounds": {None: "None", (0, 2): "b02", (4, 6): "b46"}.get(getattr(p, "bounds", None), repr(getattr(p, "bounds", None))),
+                   "bounds": "None" if d["ty"] not in ("Number", "Integer") else
+                             {None: "None", (0, 2): "b02", (4, 6): "b46"}.get(getattr(p, "bounds", None), repr(getattr(p, "bounds", None))),
                    "incl": "ii" if getattr(p, "inclusive_bounds", (True, True)) == (True, True) else "xx",
                    "doc": "None" if p.doc is None else p.doc, "constant": "T" if p.constant else "F",
-                   "an": "T" if p.allow_None else "F", "inst": "T" if p.instantiate else "F"}
+                   "an": "T" if p.allow_None else "F", "inst": "T" if p.instantiate else "F",
+                   "it": {None: "None", int: "int", str: "str"}.get(getattr(p, "item_type", None), "?")}
             for k, want in list(META[e.get("meta", "None")].items()) + (list(NMETA[e.get("nmeta", "None")].items()) if d["ty"] in ("Number", "Integer") else []):
                 have = getattr(p, "_label" if k == "label" else k)
                 if have != want or type(have) is not type(want):
